@@ -44,6 +44,7 @@ def CAP(part):
     return part[0].upper() + part[1:]
 
 
+@opaque(returns="str")
 def CONV(name, convention, is_class):
     """Naming conversion as the property describes it: surrounding underscores dropped, the remaining
     underscore-separated segments joined, every segment (class names) / every segment but the first
@@ -63,19 +64,24 @@ def CONV(name, convention, is_class):
 class convert_name:
     params = {"name": "str", "naming_convention": "NamingConvention", "is_class_name": "bool"}
     raises = ()
+    unfold = ["CONV"]
 
     def requires(name, naming_convention, is_class_name):
         return True
 
+    @clause(mode="prove")
     def ensures_python_identity(name, naming_convention, is_class_name, result):
         return implies(naming_convention == NamingConvention.PYTHON, result == name)
 
+    @clause(mode="prove")
     def ensures_single_underscore(name, naming_convention, is_class_name, result):
         return implies(name == "_", result == "_")
 
+    @clause(mode="prove")
     def ensures_no_underscore(name, naming_convention, is_class_name, result):
         return implies(naming_convention == NamingConvention.SAFE_DS and name != "_", "_" not in result)
 
+    @clause(mode="prove")
     def ensures_first_segment_kept(name, naming_convention, is_class_name, result):
         # non-class names: the text up to the first inner underscore is kept as written
         return implies(naming_convention == NamingConvention.SAFE_DS and not is_class_name and "_" not in name,
